@@ -15,6 +15,61 @@ pub(crate) fn clock_override() -> Option<u128> {
     }
 }
 
+// ---- reclamation bookkeeping (H3) ----
+
+static CAPTURE_DELETIONS: std::sync::atomic::AtomicBool = std::sync::atomic::AtomicBool::new(false);
+static PENDING_DELETIONS: std::sync::Mutex<Vec<String>> = std::sync::Mutex::new(Vec::new());
+
+/// When on, deletion requests of `flush_check` are collected here instead of being sent to the
+/// background reclaimer, and `run_reclaimer` performs them synchronously.
+pub fn capture_deletions(on: bool) {
+    CAPTURE_DELETIONS.store(on, Ordering::SeqCst);
+}
+
+pub(crate) fn capture_deletion(path: &str) -> bool {
+    if CAPTURE_DELETIONS.load(Ordering::SeqCst) {
+        PENDING_DELETIONS.lock().unwrap().push(path.to_string());
+        true
+    } else {
+        false
+    }
+}
+
+pub fn pending_deletions() -> Vec<String> {
+    PENDING_DELETIONS.lock().unwrap().clone()
+}
+
+/// Delete every captured file (what the reclaimer's periodic pass does); returns the paths removed.
+pub fn run_reclaimer() -> Vec<String> {
+    let mut v: Vec<String> = PENDING_DELETIONS.lock().unwrap().drain(..).collect();
+    v.sort();
+    v.dedup();
+    v.retain(|p| std::fs::remove_file(p).is_ok());
+    v
+}
+
+/// (locked, checkpointed, total, fully_allocated) of a WAL file, as `flush_check` sees them.
+pub fn file_state(path: &str) -> Option<(u16, u16, u16, bool)> {
+    crate::wal::runtime::verif_file_state(path)
+}
+
+pub fn block_file(block_id: usize) -> Option<String> {
+    crate::wal::runtime::verif_block_file(block_id)
+}
+
+// ---- clean-marker persister (H3) ----
+
+static PERSISTER_HELD: std::sync::atomic::AtomicBool = std::sync::atomic::AtomicBool::new(false);
+
+/// While held, the marker persister thread keeps its pending set and writes nothing.
+pub fn hold_marker_persister(on: bool) {
+    PERSISTER_HELD.store(on, Ordering::SeqCst);
+}
+
+pub(crate) fn marker_persister_held() -> bool {
+    PERSISTER_HELD.load(Ordering::SeqCst)
+}
+
 pub fn sanitize_namespace(key: &str) -> String {
     crate::wal::config::sanitize_namespace(key)
 }
